@@ -107,7 +107,10 @@ def traced_class(P, cache_on: bool):
 
 def run_one(T, source, verbose, call_invalid, limit):
     from pegen.tokenizer import Tokenizer
-    toks = list(tokenize.generate_tokens(io.StringIO(source).readline))
+    try:
+        toks = list(tokenize.generate_tokens(io.StringIO(source).readline))
+    except (tokenize.TokenError, IndentationError, SyntaxError):
+        return {"kind": "untokenizable"}        # e.g. an unclosed bracket: not a token sequence, skipped by the callers
     tk = Tokenizer(iter(toks))
     p = T(tk, verbose=verbose)
     p._events = []
@@ -182,7 +185,7 @@ def main():
                 if r["kind"] in ("timeout", "memory"):
                     dead = True
             res.append(one)
-        out.append({"results": res, "text": text, "keywords": list(P.KEYWORDS), "soft_keywords": list(P.SOFT_KEYWORDS)})
+        out.append({"results": res, "text": text, "keywords": list(getattr(P, "KEYWORDS", ())), "soft_keywords": list(getattr(P, "SOFT_KEYWORDS", ()))})
     sys.stdout = real_stdout
     json.dump(out, sys.stdout)
 
